@@ -1,7 +1,7 @@
 """Scope-stack rules shared by C02 and C07 (R2.2 pairing, R2.3, R2.4, who-may-write)."""
 import ast
 
-from ..prog import norm, walk_local, AnalysisError, walk_body
+from ..prog import norm, walk_local, AnalysisError, walk_body, Func
 from ..cfg import cfg_of, node_exprs, walk_expr, reaching_defs
 from ..calls import calls_of
 from ..effects import effects_of
@@ -247,4 +247,84 @@ def rule_push_target_scope(ctx, rid="R2.3"):
                 else:
                     r.fail("%s|push-arg:%s" % (f.qual, norm(arg)), site(f, call),
                            "pushed scope %s is not the URL component returned by resolve()" % arg.id)
+    return r
+
+
+def memo_sites(prog):
+    """Every application of functools.lru_cache / functools.cache in the package: (function, site node, wrapped expr or def)."""
+    calls = calls_of(prog)
+    out = []
+
+    def is_memo(fn_expr, f):
+        if isinstance(fn_expr, ast.Call):
+            fn_expr = fn_expr.func
+        nm = norm(fn_expr)
+        return nm.split(".")[-1] in ("lru_cache", "cache", "cached_property")
+    for f in sorted(prog.funcs.values(), key=lambda x: x.qual):
+        for d in getattr(f.node, "decorator_list", []):
+            if is_memo(d, f):
+                out.append((f, d, f))
+        for n in walk_body(f):
+            if isinstance(n, ast.Call) and isinstance(n.func, ast.Call) and is_memo(n.func, f) and len(n.args) == 1:
+                out.append((f, n, n.args[0]))
+            elif isinstance(n, ast.Call) and isinstance(n.func, (ast.Name, ast.Attribute)) and norm(n.func).split(".")[-1] == "cache" and len(n.args) == 1 \
+                    and not isinstance(n.func, ast.Attribute):
+                out.append((f, n, n.args[0]))
+    for m in prog.mods.values():
+        for st in m.tree.body:
+            for n in ast.walk(st) if not isinstance(st, (ast.FunctionDef, ast.ClassDef)) else []:
+                if isinstance(n, ast.Call) and isinstance(n.func, ast.Call) and is_memo(n.func, None) and len(n.args) == 1:
+                    out.append((None, n, n.args[0]))
+    return out
+
+
+def rule_memo_scope_free(ctx, rid="R7.6"):
+    """A memoised callable answers from its arguments alone.  What a reference designates also depends on the resolution
+    scope in force (the top of the stack that push_scope/pop_scope maintain), so nothing that reads that stack may sit behind
+    a cache keyed by the reference text: the first scope's answer would be replayed in every other scope, and a validator
+    that has been used would answer differently from a fresh one."""
+    prog = ctx.prog
+    calls = calls_of(prog)
+    eff = effects_of(prog)
+    r = ctx.rule(rid, "no memoised callable (lru_cache) reads the resolution-scope stack, directly or through callees", floor=2)
+    push, pop = push_pop_funcs(prog)
+    fields = set()
+    for g in (push, pop):
+        for w in eff.direct_writes(g):
+            for t in w.locs:
+                if t[0] == "FLD" and t[1] == "RefResolver":
+                    fields.add(t[2])
+    if not fields:
+        raise AnalysisError("push_scope/pop_scope write no RefResolver field: scope state not found")
+    for f, sitenode, wrapped in memo_sites(prog):
+        where = site(f, sitenode) if f is not None else "jsonschema (module level) line %d" % sitenode.lineno
+        targets = []
+        if isinstance(wrapped, Func):
+            targets = [wrapped]
+        elif f is not None:
+            fake = ast.Call(func=wrapped, args=[], keywords=[])
+            ast.copy_location(fake, wrapped)
+            tg = calls.callee(f, fake)
+            targets = [t.func for t in tg if t.kind in ("func", "method") and t.func is not None]
+            if not targets and any(t.kind in ("ext", "builtin") for t in tg):
+                r.ok(where, "%s: library function of its arguments" % norm(wrapped)[:40])
+                continue
+        if not targets:
+            r.ok(where, "%s: not a package function" % (norm(wrapped)[:40] if not isinstance(wrapped, Func) else wrapped.qual))
+            continue
+        bad = None
+        for g in sorted(calls.reachable(targets), key=lambda x: x.qual):
+            for n in walk_body(g):
+                if isinstance(n, ast.Attribute) and n.attr in fields and isinstance(n.ctx, ast.Load) and calls.type_of(g, n.value) == "RefResolver":
+                    bad = (g, n)
+                    break
+            if bad:
+                break
+        name = ",".join(t.qual for t in targets)
+        if bad:
+            r.fail("%s|memo-reads-scope|%s" % (f.qual if f else "module", name), where,
+                   "%s is memoised by its arguments, but it reads the resolution scope (%s in %s): the answer computed in one scope is "
+                   "replayed in every other scope" % (name, norm(bad[1]), bad[0].qual))
+        else:
+            r.ok(where, "%s: reads no scope state (%s)" % (name, ",".join(sorted(fields))))
     return r
